@@ -141,92 +141,6 @@ def _run_cli(prop, tier, seed, v, wd):
             futs.append(("export", pl,
                          ex.submit(run_tlc, wd, "MC_CLI", cfg, "ex%d" % i, nw, 7000, None, None, None, ["-seed", str(seed)])))
         results = [(k, m, f.result()) for k, m, f in futs]
-    exports = []
-    for kind, meta, res in results:
-        require_clean_mc(res, "%s %s" % (kind, meta))
-        if kind == "mc":
-            states += res["distinct"]
-            transitions += res["generated"]
-            runs.append({"config": meta, "distinct_states": res["distinct"], "transitions": res["generated"], "wall_s": round(res["wall"], 1)})
-        else:
-            exports.append((meta, res))
-
-    def replay_one(item):
-        meta, res = item
-        outj = res["path"] + ".replay.json"
-        p = run_harness([binp, "cli", prop, res["path"], outj])
-        if p.returncode != 0:
-            raise Broken("cli replay failed: " + p.stdout[-2000:])
-        os.remove(res["path"])
-        return meta, json.load(open(outj))
-    # the replays of the exported trees run side by side (each has its own worker processes and, for C12, its own server)
-    with cf.ThreadPoolExecutor(max_workers=3) as ex:
-        replayed = list(ex.map(replay_one, exports))
-    for meta, r in replayed:
-        if r["trees"] == 0:
-            raise Broken("TLC exported no trees for %s" % (meta,))
-        trees += r["trees"]
-        for k, n in r["commands"].items():
-            cmds[k] = cmds.get(k, 0) + n
-        runs.append({"export": meta, "trees": r["trees"], "commands": r["commands"], "worker_crashes": r["worker_crashes"]})
-        samples += r["samples"][:1]
-        for viol in r["violations"]:
-            v.violation("%s: %s" % (viol["what"], viol["detail"][:600]),
-                        {"kind": "cli-tree", "prop": prop, "tree": viol["line"]}, viol.get("signature") or None)
-    extra = cli_extra(prop, tier, seed, v, wd, binp)
-    coverage = {"states": max(1, cases), "transitions": max(1, cases),
-                "traces_validated_against_impl": extra.get("executions", 0),
-                "samples": extra.get("samples", [])[:2] or ["no sample"],
-                "design_level_generator_choices_enumerated": cases,
-                "explanation": "states/transitions count the generator value assignments enumerated inside the invariant C20Model (layouts x methods x xFilesFactors x clock positions); the state graph itself has one state"}
-    coverage.update(extra.get("coverage", {}))
-    return v.finish("model_checking", coverage, ASSUME + ["generate is random: bound by trace validation only (every generated file is checked against the predicate GenerateOK by TLC)"])
-
-
-def run_cli(prop, tier, seed):
-    v = Verdict(prop, tier, seed)
-    wd = scratch("wv-%s-" % prop)
-    try:
-        if prop == "C20":
-            return run_c20(prop, tier, seed, v, wd)
-        return _run_cli(prop, tier, seed, v, wd)
-    finally:
-        shutil.rmtree(wd, ignore_errors=True)
-
-
-def _run_cli(prop, tier, seed, v, wd):
-    binp = build_harness(wd)
-    invs = INV[prop]
-    runs = []
-    states = transitions = 0
-    samples = []
-    cmds = {}
-    trees = 0
-    with cf.ThreadPoolExecutor(max_workers=4) as ex:
-        futs = []
-        mcs, exps = list(MC_PLAN[tier]), list(EXPORT_PLAN[tier])
-        if prop == "C12" and tier == "thorough":
-            # every row is executed twice (directory and URL, real HTTP round trips): three of the six exports (about an hour)
-            mcs, exps = mcs[:3], exps[:3]
-        if prop in ("C09", "C08"):
-            # zero values and stored NaNs (instantiated as -0 / +0 and as NaNs with different payloads by the harness)
-            mcs.append(("CLayoutsQuick", "MethodSum", "XffZero", 0, "Vals0", 2, False))
-            exps.append(("CLayoutsQuick", "MethodSum", "XffZero", 0, "Vals0", 2, False, 3))
-        if prop == "C18":
-            # physical slot order matters for view-raw: rings of 3 slots with gaps (first and last slot written, middle empty)
-            mcs.append(("CLayoutsTwo", "MethodSum", "XffZero", 1, "Vals1", 2, False))
-            exps.append(("CLayoutsTwo", "MethodSum", "XffZero", 1, "Vals1", 2, False, 3))
-        nw = max(2, NCPU // max(1, min(4, len(mcs) + len(exps))))
-        for i, pl in enumerate(mcs):
-            (lay, meth, xff, hor, vals, mp, fg), im = pl[:7], (pl[7] if len(pl) > 7 else "free")
-            cfg = cli_cfg(lay, meth, xff, hor, vals, mp, fg, invs=invs, initmode=im)
-            futs.append(("mc", pl, ex.submit(run_tlc, wd, "MC_CLI", cfg, "mc%d" % i, nw, 7000)))
-        for i, pl in enumerate(exps):
-            (lay, meth, xff, hor, vals, mp, fg, rows), im = pl[:8], (pl[8] if len(pl) > 8 else "free")
-            cfg = cli_cfg(lay, meth, xff, hor, vals, mp, fg, export="trees", exportn=rows, invs=["ExportTree"], initmode=im)
-            futs.append(("export", pl,
-                         ex.submit(run_tlc, wd, "MC_CLI", cfg, "ex%d" % i, nw, 7000, None, None, None, ["-seed", str(seed)])))
-        results = [(k, m, f.result()) for k, m, f in futs]
     for kind, meta, res in results:
         require_clean_mc(res, "%s %s" % (kind, meta))
         if kind == "mc":
